@@ -96,6 +96,21 @@ CLAIMED = {
             "value stays within tol, the final instance satisfies every row, and the trace does not increase.",
             "TLC 1.8; cvxpy+CLARABEL tolerance; logdet runs use regularisation 1e-1 (CLARABEL fails at 1e-3: inconclusive).",
             "6.14"),
+    "C15": ("TLC model checking of spec/Partition.tla (get_block state machine; real coordinate partitions of Z^3 validate the "
+            "spec) + replay of every call sequence on the real BlockPartition + TLC trace validation (PartitionTrace.tla)",
+            "All get_block call sequences (d <= 3, 4 held points, repeated and invalid block numbers) are replayed; TLC checks "
+            "on the observed blocks and solve-time constraints: blocks sum to the point, repetition returns the same object, "
+            "d = 1 is the identity, the constraint set is exactly the cross-block orthogonality relations, and every "
+            "coordinate partition of Z^3 on a grid satisfies the generated constraints when fresh leaves are the projections.",
+            "TLC 1.8; harness/drv_c15.py projection.",
+            "6.15"),
+    "C16": ("TLC model checking of spec/Access.tla (scenario x object kind x accessor; invalid option values) + replay on the "
+            "real library + TLC trace validation of every outcome (AccessTrace.tla)",
+            "Every access sequence of bounded length in every scenario (fresh, three unbounded and three infeasible models, "
+            "objects of a new model after another was solved) must raise the documented ValueError, solve must return None "
+            "on models without finite optimum, invalid option values must end in an error; all enumerated by TLC and run.",
+            "TLC 1.8; CLARABEL's infeasibility / unboundedness detection.",
+            "6.16"),
     "C17": ("TLC model checking of spec/ClassHist.tla + replay and real solves + TLC trace validation of tables, names and "
             "multipliers against spec/Classes.tla (TablesTrace.tla)",
             "For every class, history and naming variant the tables of constraints and of duals are projected and TLC "
